@@ -1123,6 +1123,20 @@ def expr_shape_class(x):
     return None
 
 
+def has_big_exponent(x, env, limit=30):
+    """some `**` has an exponent of magnitude > limit (or one that cannot be evaluated): the harness evaluators (`feval`, the
+    guarded CPython walk) refuse such powers while the Lean model computes them, so these trees are not generated"""
+    for s in subtrees(x):
+        if str(s[0]) == 'pow':
+            try:
+                e = py_shadow(s[3], env)
+            except (EvalError, ZeroDivisionError):
+                return True
+            if e[0] != 'i' or abs(e[1]) > limit:
+                return True
+    return False
+
+
 def variants(env, n=2):
     """deterministic further valuations for the syntactic comparison"""
     rng = _random.Random(repr(sorted(env.items())))
@@ -1271,6 +1285,8 @@ class C36(Prop):
                 x = X.gen_logical(rng, rng.randint(1, 3), programmatic)
             x = loads(dumps(x))
             env = X.gen_valuation(rng)
+            if has_big_exponent(x, env):
+                continue
             cls = known_expr(x, env)
             if cls is not None and rng.random() < 0.8:
                 continue                                    # keep most cases outside the classes
